@@ -931,6 +931,9 @@ class LTLayoutContainer(LTContainer[LTComponent]):
                     return (1, -box.y0, box.x0)
 
             textboxes.sort(key=getkey)
+            # Number the boxes in the order in which they are returned.
+            for index, textbox in enumerate(textboxes):
+                textbox.index = index
         else:
             self.groups = self.group_textboxes(laparams, textboxes)
             assigner = IndexAssigner()
